@@ -13,8 +13,8 @@
 namespace verif {
 
 struct HookState {
-    FILE *f; long long seq; int depth; std::map<const void *, long long> ids; long long next;
-    HookState() : f(0), seq(0), depth(0), next(0) {
+    FILE *f; long long seq; std::map<const void *, long long> ids; long long next;
+    HookState() : f(0), seq(0), next(0) {
         const char *p = getenv("EZC3D_VERIF_TRACE");
         if (p && *p) f = fopen(p, "a");
     }
@@ -22,6 +22,8 @@ struct HookState {
     void forget(const void *o) { ids.erase(o); }
 };
 inline HookState &hookState() { static HookState s; return s; }
+// nesting depth of public calls, per thread; with tracing off nothing shared is ever written (objects may be used from several threads)
+inline int &hookDepth() { static thread_local int d = 0; return d; }
 
 // the Parameter handed to c3d::parameter, as one typed set that rebuilds it
 inline J paramArg(const ezc3d::ParametersNS::GroupNS::Parameter &p) {
@@ -42,15 +44,17 @@ class Scope {
 public:
     Scope(const ezc3d::c3d *s, const J &a) : self(s), args(a), exceptionsAtEntry(0) {
         HookState &h = hookState();
-        outer = h.f && h.depth == 0;
-        ++h.depth;
+        if (!h.f) { outer = false; return; }
+        outer = hookDepth() == 0;
+        ++hookDepth();
 #if __cplusplus >= 201703L
         exceptionsAtEntry = std::uncaught_exceptions();
 #endif
     }
     ~Scope() {
         HookState &h = hookState();
-        --h.depth;
+        if (!h.f) return;
+        --hookDepth();
         if (!outer) return;
         bool threw;
 #if __cplusplus >= 201703L
@@ -68,7 +72,7 @@ public:
 // constructors / destructor are single events without a scope
 inline void emitSimple(const ezc3d::c3d *self, const char *what, const std::string &path) {
     HookState &h = hookState();
-    if (!h.f || h.depth != 0) return;
+    if (!h.f || hookDepth() != 0) return;
     J args = J::obj().set("op", what);
     if (!path.empty()) args.set("path", path);
     J ev = J::obj().set("o", J(h.idOf(self))).set("seq", J(++h.seq)).set("e", what).set("args", args).set("out", "ok");
